@@ -6,11 +6,11 @@ namespace ConcVerif.Rcu
 
 /-- coarse classification of events: the invariant proofs are split along it (one lemma per kind keeps each
 proof within the default heartbeat budget) -/
-inductive EvKind | call | ret | exc | mlk | mul | alo | con | des | fre | ald | ast | cas | plain
+inductive EvKind | call | ret | exc | mlk | mul | alo | afl | con | des | fre | ald | ast | cas | plain
   deriving DecidableEq
 
 def Ev.kind : Ev → EvKind
-  | .call _ => .call | .ret _ => .ret | .exc _ => .exc | .mlk => .mlk | .mul => .mul | .alo .. => .alo
+  | .call _ => .call | .ret _ => .ret | .exc _ => .exc | .mlk => .mlk | .mul => .mul | .alo .. => .alo | .afl _ => .afl
   | .conN .. => .con | .conR .. => .con | .des .. => .des | .fre .. => .fre | .ald .. => .ald | .ast .. => .ast
   | .cas .. => .cas | .pldDel .. => .plain | .pstDel .. => .plain | .pldData .. => .plain | .pstData .. => .plain
   | .pldZn .. => .plain | .pstZn .. => .plain
@@ -44,6 +44,9 @@ inductive Step (s : St) (t : Tid) : Ev → St → Prop
   | regAlo (k : Op) (w : Bool) (hpc : s.pc t = .called k) (hk : k = .beg ∨ ∃ f em v, k = .push f em v)
       (hh : s.hnd t = .fresh w) :
       Step s t (.alo true s.nR) (({ s with nR := s.nR + 1 }.setRled s.nR .alloc).setPc t (.regAlloc k s.nR))
+  | regFail (k : Op) (w : Bool) (hpc : s.pc t = .called k) (hk : k = .beg ∨ ∃ f em v, k = .push f em v)
+      (hh : s.hnd t = .fresh w) : Step s t (.afl true) (s.setPc t (.rExc k))
+  | rExc (k : Op) (hpc : s.pc t = .rExc k) : Step s t (.exc k) (s.setPc t .idle)
   | beg (w : Bool) (r : Nat) (o : Ord) (hpc : s.pc t = .called .beg) (hh : s.hnd t = .reg w r) (ho : o.isSc = true) :
       Step s t (.ald .head o s.head) ({ s with it := upd s.it t (some s.head) }.setPc t (.retp .beg))
   | nxt (w : Bool) (r n : Nat) (o : Ord) (hpc : s.pc t = .called .nxt) (hh : s.hnd t = .reg w r)
@@ -103,6 +106,7 @@ inductive Step (s : St) (t : Tid) : Ev → St → Prop
   -- push
   | pAlo (k : Op) (hpc : s.pc t = .pAlloc k) :
       Step s t (.alo false s.nN) (({ s with nN := s.nN + 1 }.setNled s.nN .alloc).setPc t (.pCons k s.nN))
+  | pAloFail (k : Op) (hpc : s.pc t = .pAlloc k) : Step s t (.afl false) (s.setPc t (.pThrown k))
   | pPstDel (f em : Bool) (x : Int) (n : Nat) (hpc : s.pc t = .pCons (.push f em x) n) : Step s t (.pstDel n false) s
   | pPstData (f em : Bool) (x : Int) (n : Nat) (hpc : s.pc t = .pCons (.push f em x) n) : Step s t (.pstData n x) s
   | pCon (f em : Bool) (x : Int) (n : Nat) (hpc : s.pc t = .pCons (.push f em x) n) :
@@ -147,28 +151,30 @@ inductive Step (s : St) (t : Tid) : Ev → St → Prop
   | eDelDeleted (c : Nat) (orig : Option Nat) (hpc : s.pc t = .eDel c orig) (hv : (s.nodes c).deleted = true) :
       Step s t (.pldDel c true) (s.setPc t (.eUnlock orig))
   | eDelFresh (c : Nat) (orig : Option Nat) (hpc : s.pc t = .eDel c orig) (hv : (s.nodes c).deleted = false) :
-      Step s t (.pldDel c false) (s.setPc t (.eMark c orig))
-  | eMark (c : Nat) (orig : Option Nat) (hpc : s.pc t = .eMark c orig) :
-      Step s t (.pstDel c true) ((s.setDel c true).setPc t (.eBack c orig))
-  | eBack (c : Nat) (orig : Option Nat) (o : Ord) (hpc : s.pc t = .eBack c orig) (ho : o.isSc = true) :
-      Step s t (.ald (.nback c) o (s.nodes c).back) (s.setPc t (.eNext c orig (s.nodes c).back))
-  | eNext (c : Nat) (orig p : Option Nat) (o : Ord) (hpc : s.pc t = .eNext c orig p) (ho : o.isSc = true) :
-      Step s t (.ald (.nnext c) o (s.nodes c).next) (s.setPc t (.eUnl c orig p (s.nodes c).next))
-  | eUnlPrev (c : Nat) (orig : Option Nat) (pp : Nat) (x : Option Nat) (o : Ord) (hpc : s.pc t = .eUnl c orig (some pp) x)
-      (ho : o.isSc = true) :
-      Step s t (.ast (.nnext pp) o x) ({ (s.setNext pp x) with lst := s.lst.erase c }.setPc t (.eFix c orig (some pp) x))
-  | eUnlHead (c : Nat) (orig x : Option Nat) (o : Ord) (hpc : s.pc t = .eUnl c orig none x) (ho : o.isSc = true) :
-      Step s t (.ast .head o x) ({ s with head := x, lst := s.lst.erase c }.setPc t (.eFix c orig none x))
-  | eFixNext (c : Nat) (orig p : Option Nat) (xx : Nat) (o : Ord) (hpc : s.pc t = .eFix c orig p (some xx)) (ho : o.isSc = true) :
-      Step s t (.ast (.nback xx) o p) ((s.setBack xx p).setPc t (.eAlloc c orig))
-  | eFixTail (c : Nat) (orig p : Option Nat) (o : Ord) (hpc : s.pc t = .eFix c orig p none) (ho : o.isSc = true) :
-      Step s t (.ast .tail o p) ({ s with tail := p }.setPc t (.eAlloc c orig))
+      Step s t (.pldDel c false) (s.setPc t (.eAlloc c orig))
   | eAlo (c : Nat) (orig : Option Nat) (hpc : s.pc t = .eAlloc c orig) :
       Step s t (.alo true s.nR) (({ s with nR := s.nR + 1 }.setRled s.nR .alloc).setPc t (.eCons c orig s.nR))
+  | eAloFail (c : Nat) (orig : Option Nat) (hpc : s.pc t = .eAlloc c orig) :
+      Step s t (.afl true) (s.setPc t (.pThrown (.erase true)))
   | ePst (c : Nat) (orig : Option Nat) (z : Nat) (hpc : s.pc t = .eCons c orig z) : Step s t (.pstZn z false) s
   | eCon (c : Nat) (orig : Option Nat) (z : Nat) (hpc : s.pc t = .eCons c orig z) :
       Step s t (.conR z none (some c))
-        (({ s with recs := upd s.recs z { next := none, owner := none, znode := some c } }.setRled z .cons).setPc t (.eZh orig z))
+        (({ s with recs := upd s.recs z { next := none, owner := none, znode := some c } }.setRled z .cons).setPc t (.eMark c orig z))
+  | eMark (c : Nat) (orig : Option Nat) (z : Nat) (hpc : s.pc t = .eMark c orig z) :
+      Step s t (.pstDel c true) ((s.setDel c true).setPc t (.eBack c orig z))
+  | eBack (c : Nat) (orig : Option Nat) (z : Nat) (o : Ord) (hpc : s.pc t = .eBack c orig z) (ho : o.isSc = true) :
+      Step s t (.ald (.nback c) o (s.nodes c).back) (s.setPc t (.eNext c orig (s.nodes c).back z))
+  | eNext (c : Nat) (orig p : Option Nat) (z : Nat) (o : Ord) (hpc : s.pc t = .eNext c orig p z) (ho : o.isSc = true) :
+      Step s t (.ald (.nnext c) o (s.nodes c).next) (s.setPc t (.eUnl c orig p (s.nodes c).next z))
+  | eUnlPrev (c : Nat) (orig : Option Nat) (pp : Nat) (x : Option Nat) (z : Nat) (o : Ord)
+      (hpc : s.pc t = .eUnl c orig (some pp) x z) (ho : o.isSc = true) :
+      Step s t (.ast (.nnext pp) o x) ({ (s.setNext pp x) with lst := s.lst.erase c }.setPc t (.eFix c orig (some pp) x z))
+  | eUnlHead (c : Nat) (orig x : Option Nat) (z : Nat) (o : Ord) (hpc : s.pc t = .eUnl c orig none x z) (ho : o.isSc = true) :
+      Step s t (.ast .head o x) ({ s with head := x, lst := s.lst.erase c }.setPc t (.eFix c orig none x z))
+  | eFixNext (c : Nat) (orig p : Option Nat) (xx z : Nat) (o : Ord) (hpc : s.pc t = .eFix c orig p (some xx) z)
+      (ho : o.isSc = true) : Step s t (.ast (.nback xx) o p) ((s.setBack xx p).setPc t (.eZh orig z))
+  | eFixTail (c : Nat) (orig p : Option Nat) (z : Nat) (o : Ord) (hpc : s.pc t = .eFix c orig p none z) (ho : o.isSc = true) :
+      Step s t (.ast .tail o p) ({ s with tail := p }.setPc t (.eZh orig z))
   | eZh (orig : Option Nat) (z : Nat) (o : Ord) (v : Option Nat) (hpc : s.pc t = .eZh orig z) :
       Step s t (.ald .zhead o v) (s.setPc t (.pushStore (.erase orig) z v))
   | eUnlock (orig : Option Nat) (hpc : s.pc t = .eUnlock orig) (hm : s.wmtx = some t) :
@@ -231,6 +237,8 @@ theorem step_sound {s s' : St} {t : Tid} {e : Ev} (h : step s t e = some s') : S
     | exact Step.pB3 _ _ _ (by assumption) (by assumption)
     | exact Step.eOrig _ _ _ (by assumption) (by assumption)
     | exact Step.dFreZNpld _ _ _ (by assumption)
+    | exact Step.pExc _ (by assumption)
+    | exact Step.rExc _ (by assumption)
     | (rw [‹(s.recs _).znode = none›]
        first
        | exact Step.rZnNull _ _ (by assumption) (by assumption)
